@@ -60,7 +60,7 @@ std::map<int, std::vector<uint8_t> > g_activity_to_bytes;
 struct Mon {
 	Node& n; Tracked& T; OpExec& x; int node_index; std::vector<Violation>& out;
 	size_t hi = 0;
-	std::vector<LogEv> exp;
+	std::vector<LogEv> exp;          // expected records; ctx_ok == 2 marks an optional one
 	bool stop = false;
 	std::set<std::string> seen;
 	bool cycle_fail_call = false, cycle_succ_call = false, own_fail = false;
@@ -85,9 +85,9 @@ struct Mon {
 	const HookEv* peek() const { return hi < x.hooks.size() ? &x.hooks[hi] : 0; }
 	bool peek_is(int method, int cls) const { const HookEv* e = peek(); return e && e->step == 0 && e->method == method && e->cls == cls; }
 
-	void explog(int kind, int origin, int arg, size_t pos) {
+	void explog(int kind, int origin, int arg, size_t pos, bool optional = false) {
 		if (!T.logger) return;
-		LogEv l; l.kind = static_cast<uint8_t>(kind); l.origin = static_cast<uint8_t>(origin); l.arg = static_cast<uint8_t>(arg); l.ctx_ok = 1; l.pos = static_cast<uint32_t>(pos);
+		LogEv l; l.kind = static_cast<uint8_t>(kind); l.origin = static_cast<uint8_t>(origin); l.arg = static_cast<uint8_t>(arg); l.ctx_ok = optional ? 2 : 1; l.pos = static_cast<uint32_t>(pos);
 		exp.push_back(l);
 	}
 
@@ -229,7 +229,13 @@ struct Mon {
 	// a delivery of `method` to class `cls`: its injections and the class itself, each exactly once
 	bool delivery(int method, int cls, Ctx& cx) {
 		if (stop) return false;
-		if (!defines(cls, method)) return true;
+		if (!defines(cls, method)) {
+			// a delivery to a class that defines no such callback: invisible to the hooks. A method record naming it at
+			// this very moment "corresponds to a delivery to that state" (verbose builds always emit it, plain logging
+			// builds emit it for the react/query family), so it is tolerated but not required.
+			if (cls >= 0 && cls <= SUT_INVALID) explog(LOG_METHOD, cls, method, hi, true);
+			return true;
+		}
 		const int k = (method == M_PLAN_SUCCEEDED || method == M_PLAN_FAILED) ? 0 : n_inj(cls);
 		explog(LOG_METHOD, cls, method, hi);
 		const int ord = order_of(method);
@@ -380,10 +386,15 @@ struct Mon {
 
 	void op_query() {
 		Ctx cx; cx.expect_active = T.open; cx.prop = "C05"; cx.clause = "query-root-and-active";
-		// the statement does not order the two
-		const bool root_first = !defines(T.open, M_QUERY) || peek_is(M_QUERY, SUT_INVALID) || !peek();
-		if (root_first) { delivery(M_QUERY, SUT_INVALID, cx); delivery(M_QUERY, T.open, cx); }
-		else { delivery(M_QUERY, T.open, cx); delivery(M_QUERY, SUT_INVALID, cx); }
+		// the statement does not order the two deliveries
+		const int R = SUT_INVALID, a = T.open;
+		const bool dr = defines(R, M_QUERY), da = defines(a, M_QUERY);
+		if (dr && da) {
+			if (peek_is(M_QUERY, a)) { delivery(M_QUERY, a, cx); delivery(M_QUERY, R, cx); }
+			else { delivery(M_QUERY, R, cx); delivery(M_QUERY, a, cx); }
+		} else if (dr) { delivery(M_QUERY, a, cx); delivery(M_QUERY, R, cx); delivery(M_QUERY, a, cx); }
+		else if (da) { delivery(M_QUERY, R, cx); delivery(M_QUERY, a, cx); delivery(M_QUERY, R, cx); }
+		else { delivery(M_QUERY, R, cx); delivery(M_QUERY, a, cx); delivery(M_QUERY, R, cx); }
 	}
 
 	void activation(int forced_dest /* -1 = normal activation with guards */) {
@@ -522,32 +533,26 @@ struct Mon {
 
 	//---------------------------------------------------------------------------------------------
 	void compare_logs() {
-		std::vector<LogEv> act;
-		for (size_t i = 0; i < x.logs.size(); ++i) {
-			const LogEv& l = x.logs[i];
-			if (g_info->f_verbose && l.kind == LOG_METHOD && !(l.arg < M_COUNT && defines(l.origin, l.arg))) {
-				// verbose builds additionally record deliveries to classes that define no callback
-				if (!(l.origin == SUT_INVALID || l.origin < N)) viol("C16", "method-record", "verbose method record names a non-existent state " + S(l.origin));
-				g_stats.hit("verbose_only_records");
-				continue;
-			}
-			act.push_back(l);
-		}
+		const std::vector<LogEv>& act = x.logs;
 		if (!T.logger && !act.empty()) { viol("C16", "no-records-without-logger", "records were emitted while no logger was attached"); return; }
 		static const char* const KN[] = { "method", "transition", "task-status", "plan-status", "cancellation" };
 		static const char* const CLN[] = { "method-record", "transition-record", "task-status-record", "plan-status-record", "cancellation-record" };
-		size_t i = 0;
-		for (; i < act.size() && i < exp.size(); ++i) {
-			const LogEv& a = act[i]; const LogEv& e = exp[i];
-			if (a.kind != e.kind || a.origin != e.origin || a.arg != e.arg) {
-				viol("C16", CLN[e.kind], std::string("record #") + S(static_cast<int>(i)) + " is a " + KN[a.kind] + " record (" + sid(a.origin) + "," + S(a.arg) + "), expected a " + KN[e.kind] + " record (" + sid(e.origin) + "," + S(e.arg) + ")");
-				return;
+		size_t i = 0, j = 0;
+		while (j < exp.size()) {
+			const LogEv& e = exp[j];
+			const bool opt = e.ctx_ok == 2;
+			if (i < act.size() && act[i].kind == e.kind && act[i].origin == e.origin && act[i].arg == e.arg && (act[i].pos == e.pos || !opt)) {
+				if (act[i].pos != e.pos) { viol("C16", "record-order", std::string(KN[e.kind]) + " record (" + sid(e.origin) + "," + S(e.arg) + ") was emitted after " + S(static_cast<int>(act[i].pos)) + " callbacks of this call, expected after " + S(static_cast<int>(e.pos))); return; }
+				if (!act[i].ctx_ok) viol("C16", "record-context", "a record carried a context other than the machine's");
+				if (opt) g_stats.hit("records_for_undefined_callbacks");
+				++i; ++j; continue;
 			}
-			if (a.pos != e.pos) { viol("C16", "record-order", std::string(KN[a.kind]) + " record (" + sid(a.origin) + "," + S(a.arg) + ") was emitted after " + S(static_cast<int>(a.pos)) + " callbacks of this call, expected after " + S(static_cast<int>(e.pos))); return; }
-			if (!a.ctx_ok) viol("C16", "record-context", "a record carried a context other than the machine's");
+			if (opt) { ++j; continue; }
+			if (i < act.size()) viol("C16", CLN[e.kind], std::string("record #") + S(static_cast<int>(i)) + " is a " + KN[act[i].kind] + " record (" + sid(act[i].origin) + "," + S(act[i].arg) + "), expected a " + KN[e.kind] + " record (" + sid(e.origin) + "," + S(e.arg) + ")");
+			else viol("C16", CLN[e.kind], std::string("missing ") + KN[e.kind] + " record (" + sid(e.origin) + "," + S(e.arg) + ")");
+			return;
 		}
-		if (i < exp.size()) viol("C16", CLN[exp[i].kind], std::string("missing ") + KN[exp[i].kind] + " record (" + sid(exp[i].origin) + "," + S(exp[i].arg) + ")");
-		else if (i < act.size()) viol("C16", CLN[act[i].kind], std::string("extra ") + KN[act[i].kind] + " record (" + sid(act[i].origin) + "," + S(act[i].arg) + ") that corresponds to nothing that happened");
+		if (i < act.size()) viol("C16", CLN[act[i].kind], std::string("extra ") + KN[act[i].kind] + " record (" + sid(act[i].origin) + "," + S(act[i].arg) + ") that corresponds to nothing that happened at that moment");
 		if (T.logger && !exp.empty()) g_stats.hit("logged_ops");
 	}
 
@@ -678,7 +683,6 @@ uint64_t hash_plan(uint64_t h, const PlanSnap& p) {
 } // namespace
 
 void check_static(std::vector<Violation>& out) {
-	static bool done = false; if (done) return; done = true;
 	const unsigned N = g_info->n_states;
 	for (unsigned i = 0; i < N; ++i) if (g_info->id_of[i] != i) {
 		Violation v; v.prop = "C14"; v.clause = "stateid-is-declaration-position"; v.msg = "stateId<T>() of the state declared at position " + S(static_cast<int>(i)) + " is " + S(g_info->id_of[i]); out.push_back(v); break;
